@@ -482,6 +482,15 @@ func execStateMethods(c *Ctx, which map[string]bool) {
 						ok = false
 						c.Fail(name, pos, "CopyWithResult must not modify the live execution", pathTrace(ev, p))
 					}
+					// the copy differs from the execution in its last result and error only: its context, cancel state and
+					// counters stay the execution's (a fallback function or listener handed the copy observes the same
+					// cancellation)
+					if x.Kind == EvStore && x.Addr.Op == "faddr" && len(p.Rets) == 1 && rootedAt(x.Addr, p.Rets[0]) {
+						if f := FieldName(x.Addr.Aux); f != "lastResult" && f != "lastError" {
+							ok = false
+							c.Fail(name, pos, "the copy's "+f+" is replaced: CopyWithResult may only set the last result and error (the copy must stay attached to the execution's context and cancellation)", pathTrace(ev, p))
+						}
+					}
 				}
 			}
 			if ok {
